@@ -12,6 +12,15 @@
         IS a move whenever the root has one — for every limit (also a zero budget) and every depth
         (also 0);
     C3  `bestmove_none_iff`: no move is returned iff the root has no move.
+
+  Ranked form (`*_ranked`, second half of the file).  For real chess no set that is closed under all moves
+  has an injective 64-bit hash from most positions, so each theorem is ALSO proved for a depth-ranked family
+  `S : Nat → P → Prop` (Lemmas/Ranked.lean): `S d` = positions that may be a `negamax` node of remaining
+  depth `d`, root of `findBestMove … D` in `S D`, the hash injective on `Ranked.U S = ⋃ d, S d` only, the
+  table invariant `TTMoveOK` ranging over `Ranked.U S`; quiescence positions need not lie in the family
+  (no closure under `qmoves`).  The closed-set theorems are the instances for the constant family (through
+  `Hyp.toR` in Lemmas/StopHoare.lean).  Props/SearchRanked.lean instantiates `S` with the positions within
+  `D` plies of the root.
 -/
 import Flounder.Lemmas.StopTrace
 
@@ -95,6 +104,53 @@ theorem ttHyp {S : P → Prop} (hcl : Closed G S) (hinj : HashInj G S) :
   gd_rep := fun _ _ _ => trivial
   info := fun _ _ h => h
 
+/-- the fallback of `findBestMove`: if every move the iteration loop hands back is legal, so is the
+    reported one, and one is reported whenever the root has a move. -/
+theorem bestmove_of_iterate (qfuel : Nat) (p : P) (D : Nat) (limit : Limit) (s : SearchState)
+    (score : Int) (mv : Option Move) (s' : SearchState)
+    (hres : findBestMove G qfuel p D limit s = (some (score, mv), s'))
+    (hit : ∀ b, (iterate G qfuel p D D 1 (NEGATIVE_INFINITY, none) (resetState limit s)).1 = some b →
+      Legal G p b.2) :
+    (∀ m, mv = some m → m ∈ G.moves p) ∧ (G.moves p ≠ [] → mv ≠ none) := by
+  rw [findBestMove_eq] at hres
+  revert hres hit
+  cases iterate G qfuel p D D 1 (NEGATIVE_INFINITY, none) (resetState limit s) with
+  | mk r s2 =>
+    intro hres hit
+    cases r with
+    | none => cases hres
+    | some b =>
+      obtain ⟨sc, bm⟩ := b
+      cases bm with
+      | some m0 =>
+        simp only [Prod.mk.injEq, Option.some.injEq] at hres
+        obtain ⟨⟨_, rfl⟩, _⟩ := hres
+        exact ⟨hit (sc, some m0) rfl, fun _ h => by cases h⟩
+      | none =>
+        simp only [Prod.mk.injEq, Option.some.injEq] at hres
+        obtain ⟨⟨_, rfl⟩, _⟩ := hres
+        refine ⟨fun m hm => List.mem_of_mem_head? hm, fun hne hnone => ?_⟩
+        cases hmv : G.moves p with
+        | nil => exact hne hmv
+        | cons a l => rw [hmv] at hnone; cases hnone
+
+theorem none_iff_of_legal (p : P) (mv : Option Move)
+    (h : (∀ m, mv = some m → m ∈ G.moves p) ∧ (G.moves p ≠ [] → mv ≠ none)) :
+    mv = none ↔ G.moves p = [] := by
+  obtain ⟨h1, h2⟩ := h
+  constructor
+  · intro hnone
+    cases hmv : G.moves p with
+    | nil => rfl
+    | cons a l => exact absurd hnone (h2 (by rw [hmv]; exact List.cons_ne_nil _ _))
+  · intro hnil
+    cases hm : mv with
+    | none => rfl
+    | some m =>
+      have := h1 m hm
+      rw [hnil] at this
+      cases this
+
 variable {S : P → Prop} (hcl : Closed G S) (hinj : HashInj G S)
 include hcl hinj
 
@@ -137,51 +193,112 @@ theorem tt_move_legal_invariant (qfuel : Nat) (p : P) (hS : S p) (D : Nat) (limi
 theorem bestmove_legal (qfuel : Nat) (p : P) (hS : S p) (D : Nat) (limit : Limit) (s : SearchState)
     (h : TTMoveOK G S s.tt) (score : Int) (mv : Option Move) (s' : SearchState)
     (hres : findBestMove G qfuel p D limit s = (some (score, mv), s')) :
-    (∀ m, mv = some m → m ∈ G.moves p) ∧ (G.moves p ≠ [] → mv ≠ none) := by
-  have hit := (tt_move_legal_iterate G hcl hinj qfuel p hS D D 1 (NEGATIVE_INFINITY, none)
-    (fun _ h => by cases h) (resetState limit s) h).2
-  rw [findBestMove_eq] at hres
-  revert hres hit
-  cases iterate G qfuel p D D 1 (NEGATIVE_INFINITY, none) (resetState limit s) with
-  | mk r s2 =>
-    intro hres hit
-    cases r with
-    | none => cases hres
-    | some b =>
-      obtain ⟨sc, bm⟩ := b
-      cases bm with
-      | some m0 =>
-        simp only [Prod.mk.injEq, Option.some.injEq] at hres
-        obtain ⟨⟨_, rfl⟩, _⟩ := hres
-        exact ⟨hit (sc, some m0) rfl, fun _ h => by cases h⟩
-      | none =>
-        simp only [Prod.mk.injEq, Option.some.injEq] at hres
-        obtain ⟨⟨_, rfl⟩, _⟩ := hres
-        refine ⟨fun m hm => List.mem_of_mem_head? hm, fun hne hnone => ?_⟩
-        cases hmv : G.moves p with
-        | nil => exact hne hmv
-        | cons a l => rw [hmv] at hnone; cases hnone
+    (∀ m, mv = some m → m ∈ G.moves p) ∧ (G.moves p ≠ [] → mv ≠ none) :=
+  bestmove_of_iterate G qfuel p D limit s score mv s' hres
+    (tt_move_legal_iterate G hcl hinj qfuel p hS D D 1 (NEGATIVE_INFINITY, none)
+      (fun _ h => by cases h) (resetState limit s) h).2
 
 /-- **C3.**  No move is reported exactly when the root position has none (mate / stalemate). -/
 theorem bestmove_none_iff (qfuel : Nat) (p : P) (hS : S p) (D : Nat) (limit : Limit) (s : SearchState)
     (h : TTMoveOK G S s.tt) (score : Int) (mv : Option Move) (s' : SearchState)
     (hres : findBestMove G qfuel p D limit s = (some (score, mv), s')) :
-    mv = none ↔ G.moves p = [] := by
-  obtain ⟨h1, h2⟩ := bestmove_legal G hcl hinj qfuel p hS D limit s h score mv s' hres
-  constructor
-  · intro hnone
-    cases hmv : G.moves p with
-    | nil => rfl
-    | cons a l => exact absurd hnone (h2 (by rw [hmv]; exact List.cons_ne_nil _ _))
-  · intro hnil
-    cases hm : mv with
-    | none => rfl
-    | some m =>
-      have := h1 m hm
-      rw [hnil] at this
-      cases this
+    mv = none ↔ G.moves p = [] :=
+  none_iff_of_legal G p mv (bestmove_legal G hcl hinj qfuel p hS D limit s h score mv s' hres)
 
 end
+
+/-! ## the ranked form: hash injective only on the positions a depth-`D` search can touch -/
+
+section ranked
+variable {P : Type} (G : Game P)
+
+/-- `HashInj` of this file and `HashInjOn` of Lemmas/Ranked.lean are the same statement. -/
+theorem hashInj_iff_hashInjOn (U : P → Prop) : HashInj G U ↔ Search.HashInjOn G U := Iff.rfl
+
+/-- a closed set (in the sense of this file) is a constant ranked family. -/
+theorem ranked_of_closed {S : P → Prop} (hcl : Closed G S) : Search.Ranked G (fun _ => S) :=
+  ⟨fun _ p m hp hm => hcl.1 p m hp hm, fun _ _ hp => hp⟩
+
+/-- the invariant as a `HypR`: the table holds only generated moves for the positions of `Ranked.U S`. -/
+theorem ttHypR {S : Nat → P → Prop} (hr : Search.Ranked G S) (hinj : HashInj G (Search.Ranked.U S)) :
+    HypTopR G S (Legal G) (fun _ => True) (fun s => TTMoveOK G (Search.Ranked.U S) s.tt) where
+  ranked := hr
+  q_none := fun _ _ h => by cases h
+  q_move := fun _ _ _ hm m' h => by cases h; exact hm
+  gd_poll := fun _ _ _ => trivial
+  gd_enter := fun _ _ => trivial
+  gd_frame := fun _ _ _ _ => trivial
+  poll := fun _ h => h
+  enter := fun _ h _ => h
+  frame := fun _ _ _ _ _ h => h
+  probe := fun _ p e h hS he => h p hS e he
+  store := fun _ _ ev _ d b h hS _ hmv => ttMoveOK_store G hinj h hS ev hmv d b
+  rep := fun _ _ h => h
+  gd_rep := fun _ _ _ => trivial
+  info := fun _ _ h => h
+
+variable {S : Nat → P → Prop} (hr : Search.Ranked G S) (hinj : HashInj G (Search.Ranked.U S))
+include hr hinj
+
+/-- quiescence: NO membership hypothesis on `p` (positions below the horizon are outside the family). -/
+theorem tt_move_legal_quiesce_ranked (fuel : Nat) (p : P) (α β : Int) (s : SearchState)
+    (h : TTMoveOK G (Search.Ranked.U S) s.tt) :
+    TTMoveOK G (Search.Ranked.U S) (quiesce G fuel p α β s).2.tt :=
+  quiesce_inv_ranked (ttHypR G hr hinj).toHypR fuel p α β s h trivial
+
+theorem tt_move_legal_negamax_ranked (qfuel depth : Nat) (p : P) (hS : S depth p) (ply : Nat) (α β : Int)
+    (s : SearchState) (h : TTMoveOK G (Search.Ranked.U S) s.tt) :
+    TTMoveOK G (Search.Ranked.U S) (negamax G qfuel depth p ply α β s).2.tt ∧
+    ∀ r, (negamax G qfuel depth p ply α β s).1 = some r → Legal G p r.bestMove :=
+  negamax_inv_ranked (ttHypR G hr hinj).toHypR qfuel depth p ply α β s hS h trivial
+
+theorem tt_move_legal_searchPosition_ranked (qfuel : Nat) (p : P) (depth : Nat) (hS : S depth p)
+    (s : SearchState) (h : TTMoveOK G (Search.Ranked.U S) s.tt) :
+    TTMoveOK G (Search.Ranked.U S) (searchPosition G qfuel p depth s).2.tt ∧
+    ∀ r, (searchPosition G qfuel p depth s).1 = some r → Legal G p r.bestMove :=
+  searchPosition_inv_ranked (ttHypR G hr hinj) qfuel p depth s hS h trivial
+
+theorem tt_move_legal_iterate_ranked (qfuel : Nat) (p : P) (maxDepth : Nat) (hS : S maxDepth p)
+    (n cur : Nat) (best : Int × Option Move) (hb : Legal G p best.2) (s : SearchState)
+    (h : TTMoveOK G (Search.Ranked.U S) s.tt) :
+    TTMoveOK G (Search.Ranked.U S) (iterate G qfuel p maxDepth n cur best s).2.tt ∧
+    ∀ b, (iterate G qfuel p maxDepth n cur best s).1 = some b → Legal G p b.2 :=
+  iterate_inv_ranked (ttHypR G hr hinj) qfuel p maxDepth hS n cur best s hb h
+
+/-- **C1, ranked.**  The root lies in `S D`; the hash is injective on `Ranked.U S` only. -/
+theorem tt_move_legal_invariant_ranked (qfuel : Nat) (p : P) (D : Nat) (hS : S D p) (limit : Limit)
+    (s : SearchState) (h : TTMoveOK G (Search.Ranked.U S) s.tt) :
+    TTMoveOK G (Search.Ranked.U S) (findBestMove G qfuel p D limit s).2.tt :=
+  findBestMove_inv_ranked (ttHypR G hr hinj) qfuel p D hS limit s h
+
+/-- **C2, ranked.** -/
+theorem bestmove_legal_ranked (qfuel : Nat) (p : P) (D : Nat) (hS : S D p) (limit : Limit)
+    (s : SearchState) (h : TTMoveOK G (Search.Ranked.U S) s.tt) (score : Int) (mv : Option Move)
+    (s' : SearchState) (hres : findBestMove G qfuel p D limit s = (some (score, mv), s')) :
+    (∀ m, mv = some m → m ∈ G.moves p) ∧ (G.moves p ≠ [] → mv ≠ none) :=
+  bestmove_of_iterate G qfuel p D limit s score mv s' hres
+    (tt_move_legal_iterate_ranked G hr hinj qfuel p D hS D 1 (NEGATIVE_INFINITY, none)
+      (fun _ h => by cases h) (resetState limit s) h).2
+
+/-- **C3, ranked.** -/
+theorem bestmove_none_iff_ranked (qfuel : Nat) (p : P) (D : Nat) (hS : S D p) (limit : Limit)
+    (s : SearchState) (h : TTMoveOK G (Search.Ranked.U S) s.tt) (score : Int) (mv : Option Move)
+    (s' : SearchState) (hres : findBestMove G qfuel p D limit s = (some (score, mv), s')) :
+    mv = none ↔ G.moves p = [] :=
+  none_iff_of_legal G p mv (bestmove_legal_ranked G hr hinj qfuel p D hS limit s h score mv s' hres)
+
+end ranked
+
+/-- the closed-set theorems ARE the ranked ones for the constant family: e.g. C1. -/
+theorem tt_move_legal_invariant_of_ranked {P : Type} (G : Game P) {S : P → Prop} (hcl : Closed G S)
+    (hinj : HashInj G S) (qfuel : Nat) (p : P) (hS : S p) (D : Nat) (limit : Limit)
+    (s : SearchState) (h : TTMoveOK G S s.tt) :
+    TTMoveOK G S (findBestMove G qfuel p D limit s).2.tt := by
+  have hU : ∀ q, Search.Ranked.U (fun _ : Nat => S) q ↔ S q := fun q => ⟨fun ⟨_, h⟩ => h, fun h => ⟨0, h⟩⟩
+  have h' := tt_move_legal_invariant_ranked G (S := fun _ => S) (ranked_of_closed G hcl)
+    (fun a b ha hb e => hinj a b ((hU a).1 ha) ((hU b).1 hb) e) qfuel p D hS limit s
+    (fun q hq e he m hm => h q ((hU q).1 hq) e he m hm)
+  exact fun q hq e he m hm => h' q ((hU q).2 hq) e he m hm
 
 /-! ## zero budget, concretely: the fallback move -/
 
